@@ -3,6 +3,9 @@
 
 proof:          lean/OdfModel/Props/C05.lean (fix_identity, fix_inserts_in_root_tag, fix_prolog_untouched, fix_rest_untouched, fix_w5_root_behind_doctype, fix_w1_ok, fix_w2_text_untouched, fix_w4_ok, section_attributes_kept, sections_preserved_partial; extras_carried parked in Props/C05Extras.lean until the package layer provides the general theorem) about lean/OdfModel/LoadSax.lean (LoadParser, __fixXmlPart, the manifest
                 dispatch of load)
+                Props/C05Long.lean (round 7): fix_long_root_identity (plain padding of ANY length in front of the declarations of the
+                root start tag: the part is not touched - scanTag_pad, declares_pad), fontDrop_keeps (style:name is an exact key of the
+                font merge: a declaration whose name is not character for character among the earlier ones is kept)
 correspondence: __fixXmlPart on the text of every part of every package (real function vs `fixxml` of drv_load);
                 __fixXmlPart on PROLOG TEXTS (harness/prologs.py, fix e859a9c): every legal prolog shape (entity literals, comments,
                 processing instructions with `<name`, quotes, `>`, `]` inside; root declaring all / none / some of the nine prefixes)
@@ -131,6 +134,25 @@ def contains(forest, t):
     return any(L.norm(k) == nt for k in forest if k[0] == 'E')
 
 
+FONT_REF_ATTRS = ((L.STYLENS, u'font-name'), (L.STYLENS, u'font-name-asian'), (L.STYLENS, u'font-name-complex'))
+
+
+def font_names(sec):
+    """style:name of the style:font-face children of an office:font-face-decls element (None: no such section)"""
+    return [] if sec is None else [L.attr(k, L.STYLENS, 'name') for k in sec[4] if k[0] == 'E' and (k[1], k[2]) == (L.STYLENS, 'font-face')]
+
+
+def font_refs(roots):
+    out = []
+    for r in roots:
+        if r is not None:
+            for e in L.elems(r):
+                for a in e[3]:
+                    if (a[0], a[1]) in FONT_REF_ATTRS:
+                        out.append(a[2])
+    return out
+
+
 def compare_doc(rep, src, out, folder, top):
     S = L.sections_of(src, folder); O = L.sections_of(out, folder)
     names = style_names(S)
@@ -179,6 +201,16 @@ def compare_doc(rep, src, out, folder, top):
                 clash = bool(same) and any(contains(ofonts, k) for k in same)
                 sig = dropped.get(part) or ('font-face-name-clash' if clash else 'font-face-lost')
                 rep.add(sig, '%s%s: font declaration %r not in the saved package' % (folder, part, nm))
+    # references to font declarations (style:font-name and its -asian / -complex siblings are names of style:font-face
+    # elements, exact keys): a name the source part declared AND referred to is still declared by the saved part, character
+    # for character - otherwise the saved part refers to a font it does not declare
+    for part, roots, sfonts, ofn in ((u'content.xml', [S.content_auto, S.body], S.content_fonts, O.content_fonts),
+                                     (u'styles.xml', [S.styles, S.styles_auto, S.master], S.styles_fonts, O.styles_fonts)):
+        declared = set(font_names(sfonts)); kept = set(font_names(ofn))
+        for nm in sorted(set(font_refs(roots))):
+            if nm in declared and nm not in kept:
+                rep.add(dropped.get(part) or 'font-reference-dangling', '%s%s: style:font-name %r is declared in the source part, the saved part declares %s' %
+                        (folder, part, nm, sorted(kept)[:8]))
     # referenced automatic styles, each in its own part
     for part, auto, roots, oauto in ((u'content.xml', S.content_auto, [S.body], O.content_auto),
                                      (u'styles.xml', S.styles_auto, [S.master], O.styles_auto)):
@@ -327,6 +359,9 @@ def build_case(recipe):
         spec = M.spec_of(L.read_pkg(raw))
     elif recipe['base'].startswith('witness:'):
         spec = M.witness(recipe['base'][8:])
+    elif recipe['base'].startswith('longroot:'):
+        k, delta, kind, which = recipe['base'][9:].split(u':')
+        spec = M.long_root_witness(rng, int(k), int(delta), kind, which)
     else:
         spec = M.synthetic(rng, recipe['base'][4:])
     if recipe.get('mut'):
@@ -486,6 +521,25 @@ def gen_cases(chk):
     for shape in ('objects', 'nested', 'objpics', 'many', 'gap'):
         for _ in range(nsyn if shape in ('objects', 'nested') else 1):
             cases.append({'base': 'syn:' + shape, 'mut': 'object-listed-members', 'seed': rng.getrandbits(48)})
+    # ---- round 7: nearly equal font names in the two parts; very long root start tags
+    for base in ['syn:plain'] * (3 * nsyn) + ['syn:objects', 'syn:nested'] * (nsyn // 2) + \
+            ['file:' + f for f in files if os.path.basename(f) in ('simplelist.odt', 'emb_spreadsheet.odp', 'cols.odp', 'pythagoras.ods')]:
+        cases.append({'base': base, 'mut': 'fonts-near-names', 'seed': rng.getrandbits(48)})
+    for base in ['syn:plain', 'syn:objects'] + ['file:' + f for f in files if os.path.basename(f) in (('simplelist.odt', 'emb_spreadsheet.odp') if chk.tier == 'thorough' else ('simplelist.odt',))]:
+        for m in ('long-root-tag-8k', 'long-root-tag-64k', 'long-root-tag'):
+            if m == 'long-root-tag-64k' and base == 'syn:objects' and chk.tier != 'thorough':
+                continue
+            for _ in range(nsyn // 2 if base.startswith('syn:') else 1):
+                cases.append({'base': base, 'mut': m, 'seed': rng.getrandbits(48)})
+    # hand-written parts whose root start tag ends near 2^k characters (k = 10..16), the nine prefixes the loader asks for
+    # declared at the END of the tag: all of them / some / none
+    deltas = (-1, 0, 1, 2, 40, 700) if chk.tier == 'thorough' else (rng.choice([-1, 0, 1, 2]), rng.choice([40, 700]))
+    for k in M.LONG_ROOT_K:
+        for which in ('all', 'some', 'none'):
+            for delta in (deltas if which != 'none' else deltas[:1]):
+                kinds = M.LONG_ROOT_KINDS if chk.tier == 'thorough' and k < 15 else (rng.choice(M.LONG_ROOT_KINDS),)
+                for kind in kinds:
+                    cases.append({'base': 'longroot:%d:%d:%s:%s' % (k, delta, kind, which), 'mut': None, 'seed': rng.getrandbits(48)})
     return cases
 
 
@@ -525,7 +579,7 @@ def correspond_prologs(chk, drv):
 def run(chk, replay=None):
     chk.rule = ('every .od? package shipped in the repository, each also put through structure-preserving mutators '
                 '(prefix renaming/swapping, default namespace, declaration layout, manifest order, object numbering, extra '
-                'members, every kind of listed member below object folders, foreign attributes, fonts in content.xml only, names with blanks, CDATA, indentation) and synthetic '
+                'members, every kind of listed member below object folders, foreign attributes, fonts in content.xml only, nearly equal font names in the two parts, root start tags of 1-64 KiB, names with blanks, CDATA, indentation) and synthetic '
                 'packages from the harness\' own serialiser; histories of 2-4 packages loaded in one process and saved in turn, each 1-3 times; non-trivial = the package has a body with content')
     if replay is not None and replay['input'].get('base') == 'prolog':
         import prologs
@@ -566,7 +620,7 @@ def run(chk, replay=None):
             if chk.failures:
                 return
     chk.deep_search = deep
-    chk.prove(modules=['OdfModel.Props.C05', 'OdfModel.Props.C05Extras'], drivers=['drv_load'])
+    chk.prove(modules=['OdfModel.Props.C05', 'OdfModel.Props.C05Extras', 'OdfModel.Props.C05Long'], drivers=['drv_load'])
     drv = chk.driver('drv_load')
     L.correspond_pyspace(chk, drv)
     correspond_prologs(chk, drv)
@@ -594,7 +648,8 @@ def run(chk, replay=None):
         # ---- correspondence 1: __fixXmlPart on the text of every part
         fix_lines = []; fix_real = []
         for n in src.names:
-            if n.split(u'/')[-1] in L.PARTS and len(src.data[n]) < (400000 if chk.tier == 'thorough' else 60000):
+            long_root = rc['base'].startswith('longroot:') or str(rc.get('mut')).startswith('long-root-tag')
+            if n.split(u'/')[-1] in L.PARTS and len(src.data[n]) < (400000 if chk.tier == 'thorough' or long_root else 60000):
                 try:
                     text = src.data[n].decode('utf-8')
                 except UnicodeDecodeError:
@@ -602,6 +657,10 @@ def run(chk, replay=None):
                 fix_lines.append('fixxml ' + enc_str(text)); fix_real.append((n, L.real_fix(text)))
         for (n, want), ans in zip(fix_real, drv.batch(fix_lines)):
             chk.corr(); chk.count('fixxml_parts')
+            if long_root:
+                chk.count('fixxml_long_root_parts')
+                if len(src.data[n]) >= 60000:
+                    chk.count('fixxml_long_root_parts_64k')
             if ans != 'ok ' + enc_str(want):
                 chk.corr_diff(dict(rc, part=n), want[:300], dec_str(ans[3:])[:300] if ans.startswith('ok ') else ans, '__fixXmlPart on the text of the part')
             if want != src.data[n].decode('utf-8'):
